@@ -183,6 +183,7 @@ private:
 
   int get();
   int peek();
+  bool at_comment();
   void unget(int c);
 
   CPPTemplateParameterList *
@@ -202,6 +203,7 @@ private:
     bool connect_input(const std::string &input);
     int get();
     int peek();
+    bool at_comment();
 
     const CPPManifest *_manifest;
     CPPFile _file;
